@@ -222,7 +222,8 @@ deriving DecidableEq, Repr
 
 def DB.empty : DB := ⟨[], [], []⟩
 
-/-- `none` = the backend (or the DDL compiler, for an unnamed DROP CONSTRAINT) raises -/
+/-- `none` = the backend (or the DDL compiler, for an unnamed DROP CONSTRAINT) raises;
+    adding a constraint that already exists is rejected -/
 def exec (db : DB) : Op → Option DB
   | .createTable t inline =>
     if db.tables.contains t then none
@@ -232,7 +233,7 @@ def exec (db : DB) : Op → Option DB
   | .createIndex t ix =>
     if db.tables.contains t then some { db with idx := db.idx ++ [(t, ix)] } else none
   | .addConstraint t f =>
-    if db.tables.contains t && db.tables.contains f.ref then
+    if db.tables.contains t && db.tables.contains f.ref && !db.fks.contains (t, f) then
       some { db with fks := db.fks ++ [(t, f)] }
     else none
   | .dropConstraint t f =>
